@@ -568,7 +568,9 @@ static RETCODE adfFileSeekEOF_ ( struct AdfFile * const file )
 static RETCODE adfFileSeekOFS_ ( struct AdfFile * const file,
                                  uint32_t               pos )
 {
-    adfFileSeekStart_ ( file );
+    RETCODE rc = adfFileSeekStart_ ( file );
+    if ( rc != RC_OK )
+        return rc;
 
     unsigned blockSize = file->volume->datablockSize;
 
